@@ -1,6 +1,8 @@
 """Harness-side Python classes that are ALSO translated to PyLite, so that the
 interpreter and CPython run the same callbacks / link stubs."""
 
+import copy
+import queue
 
 class RecCb:
     """Recording stand-in for nxslib.proto.iparserecv.ParseRecvCb."""
@@ -64,3 +66,71 @@ def read_frames(comm, calls):
     for _ in range(calls):
         out.append(comm._read_frame())
     return [out, comm._prev_read, comm._intf.chunks]
+
+
+class ScriptQueue:
+    """Stand-in for queue.Queue: get() hands out the scripted items; None = nothing arrives any more."""
+
+    def __init__(self, items):
+        self.items = items
+
+    def get(self, block=True, timeout=None):
+        if not self.items:
+            raise queue.Empty
+        x = self.items[0]
+        if x is None:
+            # the device is silent from here on (raised before any mutation: PyLite does not
+            # keep state changes made before an exception that is caught later)
+            raise queue.Empty
+        self.items = self.items[1:]
+        return x
+
+    def put(self, x):
+        self.items = self.items + [x]
+
+
+class LogIntf:
+    """A link that records what is written."""
+
+    def __init__(self):
+        self.written = []
+
+    def write(self, data):
+        self.written.append(data)
+
+
+def comm_view(comm):
+    """what the configuration properties talk about"""
+    return copy.deepcopy([comm._channels, comm.dev.channels_en, comm.dev.channels_div, comm._intf.written,
+                          comm._q.items])
+
+
+def comm_run(comm, ops):
+    """a history of configuration calls on a CommHandler whose queue and link are the stubs above"""
+    views = []
+    for op in ops:
+        name = op[0]
+        if name == "enable":
+            comm.ch_enable(op[1])
+        elif name == "disable":
+            comm.ch_disable(op[1])
+        elif name == "divider":
+            comm.ch_divider(op[1], op[2])
+        elif name == "write":
+            comm.channels_write()
+        elif name == "default":
+            comm.channels_default_cfg()
+        elif name == "enable_all":
+            comm.ch_enable_all()
+        elif name == "disable_all":
+            comm.ch_disable_all()
+        elif name == "start":
+            views.append(comm.stream_start())
+        elif name == "stop":
+            views.append(comm.stream_stop())
+        elif name == "is_enabled":
+            views.append(comm.ch_is_enabled(op[1]))
+        elif name == "div_get":
+            views.append(comm.ch_div_get(op[1]))
+        views.append(comm_view(comm))
+    return views
